@@ -16,7 +16,7 @@ ANCHORS = ["pyoma2.functions.ssi:SSI_multi_setup", "pyoma2.functions.gen:pre_mul
 REQUIRED_MONITORS = ["shared-object history", "truth@PreGER.cov_mm", "truth@PreGER.dat", "truth@SSI_multi_setup", "gain-metamorphic", "split@pre_multisetup(direct)",
                      "split@pre_multisetup(every call made by MultiSetup_PreGER)"]
 ALL_STATES = ["refs listed out of order", "refs differ between setups", "complex shapes", "real shapes", "br=nu+1", "br>nu+1"]
-REQUIRED_STATES = ["modes requested in a rotated order", "refs listed out of order", "refs differ between setups", "br=nu+1", "equal record lengths, different channel counts", "a later setup repeats the first setup's reference records", "two global modes inside each other's default tolerance", "oversampled records, one reference, 3..5 modes", "setup dictionaries with 'mov' before 'ref'"]
+REQUIRED_STATES = ["one mode excited 1e-3..1e-4 times as strongly as the others in one setup", "modes requested in a rotated order", "refs listed out of order", "refs differ between setups", "br=nu+1", "equal record lengths, different channel counts", "a later setup repeats the first setup's reference records", "two global modes inside each other's default tolerance", "oversampled records, one reference, 3..5 modes", "setup dictionaries with 'mov' before 'ref'"]
 RULE = ("A: random global systems (1..5 modes), 2..4 setups, 1..3 references anywhere/any order, 1..4 roving, gains 10^U(-2,2), own record "
         "length and initial condition per setup, br >= nu_ref+1, both methods, through MultiSetup_PreGER+SSIcov_MS/SSIdat_MS and "
         "ssi.SSI_multi_setup; non-trivial = guards hold and >= 2 setups with different gains; B: EVERY channel count 2..6 and EVERY ordered "
@@ -110,6 +110,14 @@ def run_identify(ctx, rng):
         k = int(rng.integers(1, nset))
         gains[k], q0s[k], Ns[k] = gains[0], q0s[0], Ns[0]
         ctx.state("a later setup repeats the first setup's reference records")
+    if m >= 2 and getattr(run_identify, "weak", False):
+        # "arbitrary initial condition per setup": in one setup one mode is excited three to four orders of magnitude less than the others
+        # (visible, far above rounding, but weak) - the identification is of all 2m poles of every setup
+        k = int(rng.integers(0, nset))
+        j = int(rng.integers(0, m))
+        q0s[k] = q0s[k].copy()
+        q0s[k][j] *= float(10 ** rng.uniform(-4, -3))
+        ctx.state("one mode excited 1e-3..1e-4 times as strongly as the others in one setup")
     datasets = make_data(rng, Phi, lam, fs, chan_glob, gains, Ns, q0s)
     rows = c02.expected_rows(nref, chan_glob, reflist)
     PhiG = Phi[rows]
@@ -152,6 +160,16 @@ def run_identify(ctx, rng):
         if len(skip) == 2:
             return
         tolm = {mm: max(1e-8, 1e5 * eps_ * condm[mm], 1e3 * eps_ * condO) for mm in condm}
+    elif getattr(run_identify, "weak", False) and m >= 2:
+        # the weakly excited mode makes cond(H) large by construction (quadratically so for the moment matrix): each method is judged against its
+        # own Hankel matrices, up to cond 1e9 (the accuracy bound 1e5 eps cond is then 2e-2 - a lost or mixed-up mode is far above it)
+        for mm in condm:
+            if condm[mm] > 1e9:
+                skip.add(mm)
+                ctx.not_judged("weak-mode class: cond(H) > 1e9")
+        if len(skip) == 2:
+            return
+        tolm = {mm: max(1e-8, 1e5 * eps_ * condm[mm], 1e3 * eps_ * min(condO, 1e9)) for mm in condm}
     else:
         if cond > 1e7:
             ctx.not_judged("cond(H) > 1e7")
@@ -314,6 +332,7 @@ def run_case(ctx, case):
         return plumbing.run_case(ctx, case, gen.rng_of(case), PLUMB_FIELDS)
     rng = gen.rng_of(case)
     if case["cls"] == "identify":
+        run_identify.weak = (case["k"] % 6 == 3)
         run_identify(ctx, rng)
     else:
         run_split(ctx, case, rng)
